@@ -614,6 +614,7 @@ func (c *Client) monitor(ctx context.Context) {
 				c.resumeSubscriptions(ctx)
 				dlog.Printf("resumed %d subscriptions", activeSubs)
 			default:
+				simhook.Yield("client.monitor.noSubscriptionsToResume")
 				dlog.Printf("no subscriptions to resume")
 			}
 		}
